@@ -26,12 +26,13 @@ RULE = ('every group of the universe is forged once; distinct = distinct normali
         'encoding); non-trivial = distinct groups with >=2 contents, or a multi-byte zarith number (>=128), or a present '
         'optional field (parameters / delegate / proof)')
 BOUND = {
-    'quick': 'kinds: 10; singles: own-field product x 4 headers + 8-12 variants x 80 headers (4 curves, 3 hashes, '
-             '9 numbers 0..2^64+1, one-at-a-time and diagonal); 12 entrypoints x 4 values x 10 destinations x 9 amounts; '
-             'all 100 ordered kind pairs x variants^2 x 2 branches; all 1000 ordered kind triples x 2^3 variants',
-    'thorough': 'kinds: 10; singles: own-field product (14 entrypoints, 7 values, 30 destinations, 11 numbers) x 24 headers + '
-                'variants x 5160 headers (4 curves x 5 hashes x {0,127,128,2^64}^4 + one-at-a-time over 11 numbers); '
-                'all 100 ordered kind pairs x variants^2 x 2 branches; all 1000 ordered kind triples x 4^3 variants x 2 branches',
+    'quick': '10 kinds; singles: full product of the kind\'s own fields (transaction: 9 amounts x 10 destinations x 12 entrypoints x 4 '
+             'values) x 8 manager headers, plus 3-18 own-field variants x 407 headers (4 curves, hashes, numbers 0..2^64+1: diagonal, '
+             'one-at-a-time, {0,128,2^64}^4); all 100 ordered kind pairs x variants^2 x 2 branches; all 1000 ordered kind triples x 2^3',
+    'thorough': '10 kinds; singles: own-field product (transaction: 11 amounts x 30 destinations x 16 entrypoints x 7 values; numbers up '
+                'to 2^128+5) x 24 headers, plus variants x 12544 headers (4 curves x 5 hashes x {0,127,128,16384,2^64}^4 + '
+                'one-at-a-time over 11 numbers); all 100 ordered kind pairs x variants^2 x 2 branches; all 1000 ordered kind '
+                'triples x up to 5^3 variants x 2 branches',
 }
 ASSUMPTIONS = [
     'reference layouts backed by recorded operations in the repository (operation hash / pinned signature): manager header, '
@@ -451,6 +452,7 @@ def run_shard(spec, tier):
     cache = {}
     g = None
     first = True
+    via_group = spec[0] in ('pair', 'alias') or (spec[0] == 'single' and spec[2] == 'hdr')
     for g, alias in cases(spec, tier):
         r.ev()
         vs, forged, ref = judge(g, cache)
@@ -463,6 +465,11 @@ def run_shard(spec, tier):
                 r.nt(ref)
         if _rollup_destination(g):
             r.extra['oracle2_not_applied_rollup_destination'] += 1
+        if via_group and forged is not None:  # the other observation point: OperationGroup.forge()
+            r.extra['also_forged_through_OperationGroup'] += 1
+            hx = _group_forge(g)
+            if hx != forged.hex():
+                vs = vs + [('OperationGroup.forge() differs from forge_operation_group', f'{hx} vs {forged.hex()}')]
         if forged is None:
             if not alias:
                 r.extra['distinct_groups_without_forged_bytes'] += 1
@@ -490,6 +497,20 @@ def _forge_or_none(g):
         return f if isinstance(f, bytes) else None
     except Exception:  # noqa
         return None
+
+
+_CTX = []
+
+
+def _group_forge(g):
+    from pytezos.context.impl import ExecutionContext
+    from pytezos.operation.group import OperationGroup
+    if not _CTX:
+        _CTX.append(ExecutionContext())
+    try:
+        return OperationGroup(context=_CTX[0], contents=g['contents'], branch=g['branch']).forge()
+    except Exception as e:  # noqa
+        return f'{type(e).__name__}: {e}'
 
 
 def finalize(res, tier):
